@@ -232,8 +232,10 @@ func (g *ggen) expr(t GType, depth int, mode byte) *GExpr {
 	switch t {
 	case TInt:
 		if leaf {
-			if e := valueVar(TInt); e != nil && r.Chance(65) {
-				return e
+			if r.Chance(65) {
+				if e := valueVar(TInt); e != nil {
+					return e
+				}
 			}
 			switch r.Intn(12) {
 			case 0:
@@ -308,8 +310,10 @@ func (g *ggen) expr(t GType, depth int, mode byte) *GExpr {
 		return g.expr(TInt, 0, mode)
 	case TBool:
 		if leaf {
-			if e := valueVar(TBool); e != nil && r.Chance(50) {
-				return e
+			if r.Chance(50) {
+				if e := valueVar(TBool); e != nil {
+					return e
+				}
 			}
 			if r.Chance(30) {
 				return &GExpr{K: "bool", B: r.Bool(), T: TBool}
@@ -340,8 +344,10 @@ func (g *ggen) expr(t GType, depth int, mode byte) *GExpr {
 		}
 	case TStr:
 		if leaf {
-			if e := valueVar(TStr); e != nil && r.Chance(55) {
-				return e
+			if r.Chance(55) {
+				if e := valueVar(TStr); e != nil {
+					return e
+				}
 			}
 			return &GExpr{K: "str", S: strPool[r.Intn(len(strPool))], T: TStr}
 		}
@@ -678,11 +684,12 @@ func (g *ggen) stmt(depth int) []*GStmt {
 			s.Cond = g.expr(TBool, 2, g.mode())
 			s.Body = g.block(depth-1, 1+r.Intn(3))
 			if r.Chance(50) {
-				s.Else = g.block(depth-1, 1+r.Intn(2))
 				if r.Chance(30) && depth > 1 {
 					// else-if chain
 					inner := g.stmtIf(depth - 1)
 					s.Else = []*GStmt{inner}
+				} else {
+					s.Else = g.block(depth-1, 1+r.Intn(2))
 				}
 			}
 			tail := g.pop()
@@ -846,12 +853,14 @@ func (g *ggen) stmt(depth int) []*GStmt {
 			saveLoops := g.loops
 			g.loops = 0
 			g.inBlk++
+			var early *GStmt
+			if r.Chance(30) {
+				// early return from the literal (generated before the body: outer names only)
+				early = &GStmt{K: "if", Cond: g.expr(TBool, 2, 'p'), Body: []*GStmt{{K: "ret"}}}
+			}
 			body := g.block(depth-1, 1+r.Intn(3))
-			if r.Chance(40) {
-				// early return from the literal
-				pos := r.Intn(len(body) + 1)
-				ret := &GStmt{K: "if", Cond: g.expr(TBool, 2, 'p'), Body: []*GStmt{{K: "ret"}}}
-				body = append(body[:pos:pos], append([]*GStmt{ret}, body[pos:]...)...)
+			if early != nil {
+				body = append([]*GStmt{early}, body...)
 			}
 			g.inBlk--
 			g.loops = saveLoops
